@@ -90,9 +90,18 @@ type netAgent struct {
 	Stalls []netStall `json:"stalls,omitempty"`
 }
 
+// netSlot names one port of one agent.
+type netSlot struct {
+	A int `json:"a"`
+	P int `json:"p"`
+}
+
 type netCase struct {
 	ConnFreq []uint64   `json:"conn_freq"`
 	Agents   []netAgent `json:"agents"`
+	// Plug, when present, is the order in which the ports are plugged into
+	// their connections (a permutation of all ports); otherwise agent order.
+	Plug []netSlot `json:"plug,omitempty"`
 }
 
 // ------------------------------------------------- harness component types
@@ -361,6 +370,19 @@ type netRec struct {
 	compensations    int
 	chainFromDeliver int // sends made in an event-driven activation at the instant of a delivery
 
+	// plug-in index of each port on its connection, and the owner's script
+	c           netCase
+	plugIdx     map[string]int
+	ownerOfPort map[string]int
+	portsOfConn [][]messaging.Port
+	// per connection: full ports whose owner is not reading (by its script)
+	// and on which some outgoing head was blocked at the connection's latest tick
+	blockedOn               []map[string]bool
+	stalledFullBlocked      bool // ... this happened at some connection tick
+	congruentSend           int  // sends to a port with room whose plug-in index is congruent mod 64 to such a port
+	quietCongruentSend      int  // ... while the connection was asleep (its last tick delivered nothing)
+	nonCongruentSendBlocked int  // sends to a non-congruent port with room in the same situation
+
 	// C10 non-triviality
 	fullWhileOtherDelivered bool
 	blockedDeliveries       int
@@ -385,6 +407,43 @@ func (r *netRec) engineHook(ctx hooking.HookCtx) {
 		r.lastTick[ci] = tickRec{time: uint64(evt.Time()), seq: r.seq, valid: true}
 		r.swallowedAtLast[ci] = false
 		r.ticks[ci]++
+		r.observeBlocked(ci, uint64(evt.Time()))
+	}
+}
+
+func (r *netRec) ownerReads(port string, now uint64) bool {
+	a := r.c.Agents[r.ownerOfPort[port]]
+	if !a.Drain {
+		return false
+	}
+	for _, s := range a.Stalls {
+		if s.From <= now && now < s.To {
+			return false
+		}
+	}
+	return true
+}
+
+// observeBlocked runs just before a connection tick (no port lock is held):
+// which full, not-being-read ports have an outgoing head waiting for them?
+func (r *netRec) observeBlocked(ci int, now uint64) {
+	r.blockedOn[ci] = nil
+	for _, p := range r.portsOfConn[ci] {
+		if r.outOcc[p.Name()] == 0 {
+			continue
+		}
+		head := p.PeekOutgoing()
+		if head == nil {
+			continue
+		}
+		d := string(head.Meta().Dst)
+		if r.inOcc[d] >= r.capOfPort[d] && !r.ownerReads(d, now) {
+			if r.blockedOn[ci] == nil {
+				r.blockedOn[ci] = map[string]bool{}
+			}
+			r.blockedOn[ci][d] = true
+			r.stalledFullBlocked = true
+		}
 	}
 }
 
@@ -426,6 +485,22 @@ func (r *netRec) portHook(ctx hooking.HookCtx) {
 			r.wakeCause(ci)
 		}
 		r.outOcc[name]++
+		if d := string(m.Dst); len(r.blockedOn[ci]) > 0 && r.inOcc[d] < r.capOfPort[d] {
+			congruent := false
+			for k := range r.blockedOn[ci] {
+				if k != d && r.inOcc[k] >= r.capOfPort[k] && r.plugIdx[k]%64 == r.plugIdx[d]%64 {
+					congruent = true
+				}
+			}
+			if congruent {
+				r.congruentSend++
+				if lt.valid && lt.delivered == 0 && lt.time != r.now() {
+					r.quietCongruentSend++
+				}
+			} else {
+				r.nonCongruentSendBlocked++
+			}
+		}
 	case messaging.HookPosPortMsgRetrieveOutgoing:
 		r.outOcc[name]--
 	case messaging.HookPosPortMsgRecvd:
@@ -456,6 +531,12 @@ func (r *netRec) portHook(ctx hooking.HookCtx) {
 		}
 		r.inOcc[name]--
 	}
+}
+
+func (r *netRec) plugIn(ci int, port messaging.Port) {
+	r.plugIdx[port.Name()] = len(r.portsOfConn[ci])
+	r.portsOfConn[ci] = append(r.portsOfConn[ci], port)
+	r.conns[ci].PlugIn(port)
 }
 
 func (r *netRec) onConsumed(agent, port int, m messaging.Msg) {
@@ -499,6 +580,22 @@ func validNetCase(c netCase) error {
 				return fmt.Errorf("bad port %+v", p)
 			}
 			nports[p.Conn]++
+		}
+	}
+	if len(c.Plug) > 0 {
+		seen := map[netSlot]bool{}
+		total := 0
+		for _, a := range c.Agents {
+			total += len(a.Ports)
+		}
+		for _, sl := range c.Plug {
+			if sl.A < 0 || sl.A >= len(c.Agents) || sl.P < 0 || sl.P >= len(c.Agents[sl.A].Ports) || seen[sl] {
+				return fmt.Errorf("bad plug order entry %+v", sl)
+			}
+			seen[sl] = true
+		}
+		if len(seen) != total {
+			return fmt.Errorf("plug order names %d of %d ports", len(seen), total)
 		}
 	}
 	chk := func(ai, port, dstA, dstP, n int) error {
@@ -546,6 +643,11 @@ func runNet(c netCase, compensate bool) (run *netRun, ok bool, sig, msg string) 
 		connOfPort:      map[string]int{},
 		capOfPort:       map[string]int{},
 		outCapOfPort:    map[string]int{},
+		c:               c,
+		plugIdx:         map[string]int{},
+		ownerOfPort:     map[string]int{},
+		portsOfConn:     make([][]messaging.Port, len(c.ConnFreq)),
+		blockedOn:       make([]map[string]bool, len(c.ConnFreq)),
 		inOcc:           map[string]int{},
 		outOcc:          map[string]int{},
 		maxInOcc:        map[string]int{},
@@ -624,7 +726,10 @@ func runNet(c netCase, compensate bool) (run *netRun, ok bool, sig, msg string) 
 				}
 				owner.AssignPort(pname, port)
 				port.AcceptHook(ph)
-				rec.conns[p.Conn].PlugIn(port)
+				if len(c.Plug) == 0 {
+					rec.plugIn(p.Conn, port)
+				}
+				rec.ownerOfPort[port.Name()] = ai
 				rec.connOfPort[port.Name()] = p.Conn
 				rec.capOfPort[port.Name()] = p.Cap
 				rec.outCapOfPort[port.Name()] = p.outCap()
@@ -633,6 +738,10 @@ func runNet(c netCase, compensate bool) (run *netRun, ok bool, sig, msg string) 
 			}
 			core.ports = ports
 			run.ports = append(run.ports, ports)
+		}
+
+		for _, sl := range c.Plug {
+			rec.plugIn(c.Agents[sl.A].Ports[sl.P].Conn, run.ports[sl.A][sl.P])
 		}
 
 		// Behaviour scripts go into State (like ping.SchedulePing and the
